@@ -188,3 +188,117 @@ class LRUGetItem(_LRU):
 
 
 SPECS = [LRUSetItem(), LRUGetItem()]
+
+
+# ---------------------------------------------------------------------------------------------------------------------
+# get-or-compute functions over a process-global cache: the KEY must determine the VALUE
+# ---------------------------------------------------------------------------------------------------------------------
+class _GetOrCompute(Spec):
+    """`if key in cache: return cache[key]; result = compute(args); cache[key] = result; return result`.
+
+    The cache's content is history: every entry was stored by an EARLIER call of this same function with some arguments
+    args' - under the key this body builds from args' - and holds compute(args').  A hit therefore returns compute(args')
+    for some args' with key(args') == key(args).  The contract: whatever the history, the result is compute(args) -
+    i.e. the key is complete (no argument that influences the value is missing from it) - and what is stored under the
+    key is compute(args), which re-establishes the invariant for later calls.  key(args') is obtained from the key
+    term the real body builds, by renaming the argument symbols."""
+
+    props = ["C15", "C16"]
+    cache_name = None
+    assumptions = ["the cache holds only entries written by this function (no other writer in the package: checked syntactically by the contract's writer scan)",
+                   "compute (the quantile / memory-usage computation on the data) is a deterministic function of its arguments (pandas / dask: trusted)"]
+
+    def contains(self, ex, fr, container, x):
+        if isinstance(container, Opaque) and container.name == self.cache_name:
+            self._key = x
+            return z3.Bool("cache_hit")
+        return NotImplemented
+
+    def subscript(self, ex, fr, base, idx):
+        if isinstance(base, Opaque) and base.name == self.cache_name:
+            ren = list(zip(self._args, self._args_prime))
+            key = idx if isinstance(idx, tuple) else (idx,)
+            for comp in key:
+                if not z3.is_expr(comp):
+                    from vf.pyvc.exec import Unsupported
+
+                    raise Unsupported(f"cache key component {comp!r} is not a term over the arguments")
+                ex.assume(fr, z3.substitute(comp, *ren) == comp)  # the entry was stored under an equal key ...
+            ex.assume(fr, z3.substitute(self._pre, *ren))  # ... by a call that satisfied the precondition ...
+            return z3.substitute(self._value, *ren)  # ... and holds compute(args')
+        return NotImplemented
+
+    def store(self, ex, fr, base, idx, val):
+        if isinstance(base, Opaque) and base.name == self.cache_name:
+            ex.oblige("post:stored-value-is-compute-of-the-arguments", fr, (val == self._value) if z3.is_expr(val) else False)
+            ex.oblige("post:stored-under-the-key-that-is-looked-up", fr, ex.equal(idx, self._key, fr))
+            return None
+        return NotImplemented
+
+    def ensures(self):
+        return {"result-is-compute-of-the-arguments-whatever-the-cache-holds": lambda c, e, r: (r == self._value) if c.symbolic else True}
+
+    def concrete_inputs(self):
+        return []
+
+    def other_writers(self, repo=None):
+        """Functions of the package, other than the one under contract, that store into the cache (syntactic scan)."""
+        import ast
+        import os
+
+        from vf.pyvc.spec import REPO
+
+        out = []
+        tree = ast.parse(open(os.path.join(repo or REPO, self.file)).read())
+        for fn in ast.walk(tree):
+            if isinstance(fn, ast.FunctionDef) and fn.name != self.qualname.split(".")[-1]:
+                for n in ast.walk(fn):
+                    if isinstance(n, ast.Subscript) and isinstance(n.ctx, ast.Store) and isinstance(n.value, ast.Name) and n.value.id == self.cache_name:
+                        out.append(fn.name)
+        return out
+
+
+class GetDivisions(_GetOrCompute):
+    file, qualname, cache_name = "dask_expr/_shuffle.py", "_get_divisions", "divisions_lru"
+    assumptions = _GetOrCompute.assumptions + ["_calculate_divisions reads `frame` only through frame.npartitions (and for an error message); precondition taken from the call sites (SetIndex / SortValues and their lowered forms): `other` is a series with the partitioning of `frame` (a column or the index of it, or a series aligned with it), so frame.npartitions is determined by `other`"]
+
+    def make_inputs(self, ex, sym, fr):
+        nf, o = sym.int("frame_npartitions"), z3.Const("other_name", Lab)
+        n, a = sym.int("npartitions"), sym.bool("ascending")
+        ps, up = z3.Real("partition_size"), z3.Real("upsample")
+        self._args = [nf, o, n, a, ps, up]
+        self._args_prime = [z3.Int("frame_npartitions'"), z3.Const("other_name'", Lab), z3.Int("npartitions'"), z3.Bool("ascending'"), z3.Real("partition_size'"), z3.Real("upsample'")]
+        nparts_of = z3.Function("npartitions_of", Lab, z3.IntSort())
+        self._pre = nparts_of(o) == nf
+        calc = z3.Function("_calculate_divisions", z3.IntSort(), Lab, z3.IntSort(), z3.BoolSort(), z3.RealSort(), z3.RealSort(), z3.IntSort())
+        self._value = calc(*self._args)
+        self._calc = calc
+        return {"frame": Obj("frame", {"_name": z3.Const("frame_name", Lab), "npartitions": nf}, cls=("Expr",)), "other": Obj("other", {"_name": o}, cls=("Expr",)), "npartitions": n, "ascending": a, "partition_size": ps, "upsample": up}
+
+    def requires(self):
+        return {"other-has-the-partitioning-of-frame": lambda c, e: self._pre}
+
+    def call(self, ex, fr, name, args, kwargs):
+        if name == "_calculate_divisions" and len(args) == 6 and not kwargs:
+            return self._calc(args[0].attrs["npartitions"], args[1].attrs["_name"], *args[2:])
+        return NotImplemented
+
+
+class GetMemUsages(_GetOrCompute):
+    file, qualname, cache_name = "dask_expr/_repartition.py", "_get_mem_usages", "mem_usages_lru"
+
+    def make_inputs(self, ex, sym, fr):
+        f = z3.Const("frame_name", Lab)
+        self._args, self._args_prime = [f], [z3.Const("frame_name'", Lab)]
+        self._pre = z3.BoolVal(True)
+        self._calc = z3.Function("_compute_mem_usages", Lab, z3.IntSort())
+        self._value = self._calc(f)
+        return {"frame": Obj("frame", {"_name": f}, cls=("Expr",))}
+
+    def call(self, ex, fr, name, args, kwargs):
+        if name == "_compute_mem_usages" and len(args) == 1:
+            return self._calc(args[0].attrs["_name"])
+        return NotImplemented
+
+
+SPECS += [GetDivisions(), GetMemUsages()]
